@@ -600,13 +600,9 @@ fire("c07-parser-minus-not-negated", ["C07"], PF,
      "                left_exp = primitives.Sum((left_exp, right_exp))",
      "T/pygrammar/")
 fire("c0607-parser-comparison-swapped", ["C06", "C07"], PF,
-     "            left_exp = Comparison(\n                    left_exp,\n"
-     "                    self._COMP_TABLE[next_tag],\n"
-     "                    self.parse_expression(pstate, _PREC_COMPARISON))",
-     "            left_exp = Comparison(\n"
-     "                    self.parse_expression(pstate, _PREC_COMPARISON),\n"
-     "                    self._COMP_TABLE[next_tag],\n                    left_exp)",
-     "")
+     "                links.append(Comparison(left_exp, comp, right_exp))\n",
+     "                links.append(Comparison(right_exp, comp, left_exp))\n",
+     "T/parser/comparison-chain/operand-order")
 fire("c07-lexer-less-before-lessequal", ["C07"], PF,
      "            (_lessequal, pytools.lex.RE(r\"\\<=\")),\n"
      "            (_greaterequal, pytools.lex.RE(r\"\\>=\")),\n"
@@ -2535,3 +2531,43 @@ fire("c19-rational-rsub-forgets-negation", ["C19"], RAT,
      "        return (-self).__radd__(other)\n",
      "        return self.__radd__(-other)\n",
      "E/Rational.__rsub__/signs")
+
+fire("c06-lone-colon-one-part", ["C06"], PF,
+     "                left_exp = primitives.Slice((None, None))\n",
+     "                left_exp = primitives.Slice((None,))\n",
+     "T/roundtrip/Subscript-slice:")
+fire("c06-trailing-colon-three-parts", ["C06"], PF,
+     "                left_exp = primitives.Slice((left_exp, None,))\n",
+     "                left_exp = primitives.Slice((left_exp, None, None))\n",
+     "T/roundtrip/Subscript-slice:")
+
+IA = "pymbolic/interop/ast.py"
+fire("c07-chain-links-share-first-operand", ["C07"], PF,
+     "                links.append(Comparison(left_exp, comp, right_exp))\n"
+     "                left_exp = right_exp\n",
+     "                links.append(Comparison(left_exp, comp, right_exp))\n",
+     "T/parser/comparison-chain/links-share-operand")
+fire("c07-chain-joined-by-or", ["C07"], PF,
+     "            left_exp = links[0] if len(links) == 1 else LogicalAnd(tuple(links))\n",
+     "            left_exp = links[0] if len(links) == 1 else LogicalOr(tuple(links))\n",
+     "T/pygrammar/")
+fire("c07-chain-operator-read-after-advance", ["C07"], PF,
+     "                comp = self._COMP_TABLE[pstate.next_tag()]\n"
+     "                pstate.advance()\n",
+     "                pstate.advance()\n"
+     "                comp = self._COMP_TABLE[pstate.next_tag()]\n",
+     "T/parser/comparison-chain/operator-token")
+fire("c07-importer-chain-pairs-with-first-operand", ["C07"], IA,
+     "        for left, op, right in zip(operands, expr.ops, operands[1:]):\n",
+     "        for left, op, right in zip(operands[:1]*len(expr.ops), expr.ops, operands[1:]):\n",
+     "T/importer/map_Compare")
+fire("c07-importer-chain-or", ["C07"], IA,
+     "        return links[0] if len(links) == 1 else p.LogicalAnd(tuple(links))\n",
+     "        return links[0] if len(links) == 1 else p.LogicalOr(tuple(links))\n",
+     "T/importer/map_Compare")
+silent_multi("c07-chain-renamed-locals", ["C07", "C06"], PF, [
+    ("            links = []\n", "            chain = []\n"),
+    ("                links.append(Comparison(left_exp, comp, right_exp))\n",
+     "                chain.append(Comparison(left_exp, comp, right_exp))\n"),
+    ("            left_exp = links[0] if len(links) == 1 else LogicalAnd(tuple(links))\n",
+     "            left_exp = chain[0] if len(chain) == 1 else LogicalAnd(tuple(chain))\n")])
